@@ -42,6 +42,7 @@ var rsaOld KeyPair    // a certificate that expired in 1999 (before the simulate
 var rsaSig KeyPair    // keyUsage digitalSignature only (a key its owner meant for signing)
 var rsaSKI KeyPair    // a certificate carrying a SubjectKeyIdentifier, as openssl-made ones do
 var rsaSKIMal KeyPair // Mallory's key under a self-signed certificate copying rsaSKI's subject and SubjectKeyIdentifier
+var rsa4096 KeyPair   // a 4096-bit key
 
 func fixturesDir() string {
 	if d := os.Getenv("VERIF_FIXTURES"); d != "" {
@@ -83,7 +84,7 @@ func loadFixtures() {
 		ecKeys = append(ecKeys, loadKey(fmt.Sprintf("ec%d", i)))
 	}
 	rsaOld = loadKey("rsaold")
-	rsaSig, rsaSKI, rsaSKIMal = loadKey("rsasig"), loadKey("rsaski"), loadKey("rsaskimal")
+	rsaSig, rsaSKI, rsaSKIMal, rsa4096 = loadKey("rsasig"), loadKey("rsaski"), loadKey("rsaskimal"), loadKey("rsa4096")
 }
 
 // passVerifier is an application-supplied saml.SignatureVerifier that does what the library would do itself.
